@@ -8,7 +8,7 @@ CAPACITY = ["CONFIG_SOURCE_ROUTE_TABLE_SIZE", "CONFIG_SUPPORTED_NETWORKS", "CONF
 
 class Check(PropertyCheck):
     pid = "C16"
-    gen_files = ["GenConfig"]
+    gen_files = ["GenConfig", "GenConfigFn"]
     model_imports = ["gen.GenConfig", "model.Config"]
     run_expr = "run_config_case"
     case_type = "(N * list (N * option N) * list (N * option N))"
